@@ -46,7 +46,10 @@ func (dc *DublinCore) parse(p property) (err error) {
 			dc.TitleLang = append(dc.TitleLang, parseString(p.Value()))
 		}
 	case xmpns.Description:
-		dc.Description = append(dc.Description, parseString(p.Value()))
+		// the xml:lang attribute of an rdf:li arrives relabelled as the array property: it is not an item
+		if p.pt == tagPType {
+			dc.Description = append(dc.Description, parseString(p.Value()))
+		}
 		// Subject
 		// Contributor
 		// Description
